@@ -1,4 +1,5 @@
 import NunVerif.Model.Parse
+import NunVerif.Model.Pending
 /-
   `process_request` = `Request::parse` → `process_request_obj` → `replicate_request`
   (process_request.rs, security.rs, db_ops.rs, consensus_ops.rs, election_ops.rs,
@@ -25,14 +26,6 @@ structure Member where
   connected : Bool
 deriving Repr, Inhabited, DecidableEq
 
-structure PendingOp where
-  opId : Nat
-  message : Bytes
-  ackCount : Nat
-  replicateCount : Nat
-  replications : List (Bytes × Bool)
-deriving Repr, Inhabited, DecidableEq
-
 /-- what a command emits besides its reply -/
 inductive Ev
   | push (sid : Sid) (line : Bytes)          -- client channel
@@ -52,7 +45,7 @@ structure Node where
   sessions : List (Sid × Session)
   clock : Nat
   members : List (Bytes × Member)
-  pending : List (Nat × PendingOp)
+  pending : PMap
   toSnapshot : List (Bytes × Bool)
   keysMap : List (Bytes × Nat)
   oplogValid : Bool
@@ -229,25 +222,12 @@ def memberLine (n : Node) (m : Member) : Bytes :=
   if m.name = n.addr then m.name ++ b!"(self):" ++ m.role.toBytes ++ [32]
   else m.name ++ [40] ++ (if m.connected then b!"Connected" else b!"Disconnected") ++ b!"):" ++ m.role.toBytes
 
-/-- `ReplicationMessage::ack` + removal when fully acknowledged -/
 def Node.ackPending (n : Node) (op : Nat) (server : Bytes) : Node :=
-  match AL.get? n.pending op with
-  | none => n
-  | some p =>
-    let prev := AL.get? p.replications server
-    let p1 := { p with replications := AL.put p.replications server true }
-    match prev with
-    | some false =>
-      let p2 := { p1 with ackCount := p1.ackCount + 1 }
-      if p2.replicateCount = p2.ackCount then { n with pending := AL.erase n.pending op }
-      else { n with pending := AL.put n.pending op p2 }
-    | _ => { n with pending := AL.put n.pending op p1 }
+  { n with pending := (PMap.ack n.pending op server).1 }
 
-/-- `register_pending_opp` -/
 def Node.registerPending (n : Node) (op : Nat) (msg server : Bytes) : Node × Bytes :=
-  let p := (AL.get? n.pending op).getD { opId := op, message := msg, ackCount := 0, replicateCount := 0, replications := [] }
-  let p' := { p with replicateCount := p.replicateCount + 1, replications := AL.put p.replications server false }
-  ({ n with pending := AL.put n.pending op p' }, b!"rp " ++ Bytes.ofNat p'.opId ++ [32] ++ p'.message)
+  let r := PMap.register n.pending op msg server
+  ({ n with pending := r.1 }, r.2)
 
 def foldComma (l : List Bytes) : Bytes := l.foldl (fun acc x => acc ++ [44] ++ x) []
 
